@@ -416,6 +416,10 @@ def lit_value(text):
     return -v if m.group(1) else v
 
 
+def _dstr(d):
+    return '(' + ', '.join(str(Fraction(x)) for x in d) + ')'
+
+
 def _mag_ok(v):
     if v == 0:
         return True
@@ -1734,6 +1738,7 @@ class _Session:
                 return None
             cfg = {'kind': 'direct', 'scales': [float(x) for x in prev_scales[:4]] + [cfg['k']]}
         self.trail.append(cfg)
+        sentinel = self._sentinel_before(rng) if self.mode == 'search' else None
         status, got = _apply_any(cfg, uc)
         ctx.stats.case(self.mode + ':session-step', (len(self.trail), _cfg_str_any(cfg)),
                        sample={'cfg': _cfg_str_any(cfg), 'after': _cfg_str_any(self.trail[-2]) if len(self.trail) > 1 else None})
@@ -1750,11 +1755,52 @@ class _Session:
         real = {k: float(v) for k, v in uc.unit.items()}
         vals = {k: Fraction(v) for k, v in real.items()}
         if self.mode == 'search':
+            self._sentinel_after(cfg, sentinel, vals)
             # the state a failing reset leaves is the model's business (correspondence), not a clause of the property
             self._oracle(cfg, rng, None if cfg['kind'] == 'fail' else want_sc, real, vals, n_fresh, n_pairs, np)
         else:
             self._model(cfg, rng, want_sc, got if status == 'ok' else None, real, vals, n_fresh, n_pairs, np)
         return want_sc
+
+    # -- last call before / first call after a change of working units --------------------------------------------------
+    def _sentinel_before(self, rng):
+        """the LAST call into each entry point before the working units change uses the string that the FIRST call
+        after the change will use (a one-entry "same as last time" shortcut is hit only this way)."""
+        it = rng.choice([x for x in self.pool.items if any(x[2])])
+        for f in (lambda: self.uc.parse(it[0]), lambda: self.uc.set_in_units(1.5, it[0]),
+                  lambda: self.uc.get_in_units(1.5, it[0]), lambda: self.uc.set_literal('1.5 ' + it[0].strip())):
+            try:
+                _timed(f)
+            except Exception:  # noqa
+                pass
+        return it
+
+    def _sentinel_after(self, cfg, it, vals):
+        if it is None:
+            return
+        try:
+            v, _, e = ev(it[1], vals, None, 0.0)
+        except (Outside, EvalErr):
+            return
+        if v == 0:
+            return
+        uc = self.uc
+        calls = [('parse(%r)' % it[0], lambda: uc.parse(it[0]), v),
+                 ('set_in_units(1.5, %r)' % it[0], lambda: float(uc.set_in_units(1.5, it[0])), Fraction(3, 2) * v),
+                 ('get_in_units(1.5, %r)' % it[0], lambda: float(uc.get_in_units(1.5, it[0])), Fraction(3, 2) / v),
+                 ('set_literal(%r)' % ('1.5 ' + it[0].strip()), lambda: float(uc.set_literal('1.5 ' + it[0].strip())),
+                  Fraction(3, 2) * v)]
+        for label, f, want in calls:
+            self.ctx.stats.case('oracle:session-first-call', (len(self.trail), label))
+            if not _mag_ok(want):
+                continue
+            try:
+                g = _timed(f)
+            except Exception as ex:  # noqa
+                g = f'{type(ex).__name__}: {ex}'
+            if isinstance(g, str) or g != g or not abs(Fraction(g) - want) <= Fraction(_tol(want, e + 2)):
+                self._viol('session:first-call', f'the first call after {_cfg_str_any(cfg)}, uc.{label}, returns {g!r}; it is '
+                           f'{_f(want)!r} with the units now in force (the same call was the last one before the change)', [it[0]])
 
     def _inside(self, vals):
         """pool items whose exact intermediate values stay inside the double range under the table now in force:
@@ -1808,75 +1854,85 @@ class _Session:
 
     def _oracle_reads(self, cfg, rng, want_sc, real, vals, n_fresh, n_pairs, np):
         ctx, uc, t = self.ctx, self.uc, self.t
-        # (a) the table is const * prod(base^dim) for the scalings this configuration demands
-        if want_sc is not None and all(x > 0 for x in want_sc):
-            for n, d in t.dims.items():
-                pred = float(t.si[n]) * math.prod(x ** k for x, k in zip(want_sc, d))
-                r = real.get(n)
-                if r is None or not abs(r - pred) <= _table_bound(d) * abs(pred):
-                    self._viol('session:unit-table', f'unit[{n!r}] = {r!r} after {_cfg_str_any(cfg)}; with base units '
-                               f'(m, kg, s, C, K) = {want_sc} it is {pred!r}', [n])
-                    break
-        # (b) each chosen unit is one — through every way of reading a unit
-        if _claims_one(cfg):
-            for k, n in cfg['kw'].items():
-                ctx.stats.case('oracle:session-chosen', (len(self.trail), n))
-                reads = {'unit[%r]' % n: lambda: uc.unit[n], 'parse(%r)' % n: lambda: _timed(uc.parse, n),
-                         'set_in_units(1.0, %r)' % n: lambda: float(_timed(uc.set_in_units, 1.0, n)),
-                         'get_in_units(1.0, %r)' % n: lambda: float(_timed(uc.get_in_units, 1.0, n)),
-                         'set_literal(%r)' % ('1 ' + n): lambda: float(_timed(uc.set_literal, '1 ' + n))}
-                for label, f in reads.items():
-                    try:
-                        v = f()
-                    except Exception as ex:  # noqa
-                        v = f'{type(ex).__name__}: {ex}'
-                    if isinstance(v, str) or not abs(v - 1.0) <= 64 * U:
-                        self._viol('session:chosen-one', f'after {_cfg_str_any(cfg)} uc.{label} = {v!r}, not 1', [n])
-        # (c) every expression has the value the ordinary grammar gives it over the table now in force
         ok = self._inside(vals)
-        for it, s, cached in self._spellings(rng, n_fresh, ok):
-            ctx.stats.case('oracle:session-parse', (len(self.trail), s))
-            v, e = ok[it[0]]
-            impl = _real_parse(uc, s)
-            if impl == 'err' or abs(Fraction(impl) - v) > _tol(v, e):
-                self._viol('session:parse', f'uc.parse({s!r}) = {impl!r} after {_cfg_str_any(cfg)}; the expression is '
-                           f'{tree_str(it[1])} = {_f(v)!r} with the units now in force '
-                           f'({"spelled as in earlier calls" if cached else "spelled as never before"})', [s])
-        # (d) working-unit independence: x [s1] in [s2] is the SI ratio — one side spelled as before, the other fresh
-        pairs = rng.sample(self.pool.pairs, min(n_pairs, len(self.pool.pairs)))
-        for a, b in pairs:
-            if a[0] not in ok or b[0] not in ok:
-                continue
-            xs = [1.0, cm.dyadic(rng, -8, 8, 3), rng.uniform(-100, 100)]
-            for s1, s2 in ((a[0], render(None, b[1], 2, wsfix=_fresh_ws())), (render(None, a[1], 2, wsfix=_fresh_ws()), b[0]),
-                           (a[0], b[0])):
-                ctx.stats.case('oracle:session-independence', (len(self.trail), s1, s2))
-                if not all(_mag_ok(Fraction(x) * ok[a[0]][0]) for x in xs):
+        def clause_table():
+            # (a) the table is const * prod(base^dim) for the scalings this configuration demands
+            if want_sc is not None and all(x > 0 for x in want_sc):
+                for n, d in t.dims.items():
+                    pred = float(t.si[n]) * math.prod(x ** k for x, k in zip(want_sc, d))
+                    r = real.get(n)
+                    if r is None or not abs(r - pred) <= _table_bound(d) * abs(pred):
+                        self._viol('session:unit-table', f'unit[{n!r}] = {r!r} after {_cfg_str_any(cfg)}; with base units '
+                                   f'(m, kg, s, C, K) = {want_sc} it is {pred!r}', [n])
+                        break
+        def clause_chosen():
+            # (b) each chosen unit is one — through every way of reading a unit
+            if _claims_one(cfg):
+                for k, n in cfg['kw'].items():
+                    ctx.stats.case('oracle:session-chosen', (len(self.trail), n))
+                    reads = {'unit[%r]' % n: lambda: uc.unit[n], 'parse(%r)' % n: lambda: _timed(uc.parse, n),
+                             'set_in_units(1.0, %r)' % n: lambda: float(_timed(uc.set_in_units, 1.0, n)),
+                             'get_in_units(1.0, %r)' % n: lambda: float(_timed(uc.get_in_units, 1.0, n)),
+                             'set_literal(%r)' % ('1 ' + n): lambda: float(_timed(uc.set_literal, '1 ' + n))}
+                    for label, f in reads.items():
+                        try:
+                            v = f()
+                        except Exception as ex:  # noqa
+                            v = f'{type(ex).__name__}: {ex}'
+                        if isinstance(v, str) or not abs(v - 1.0) <= 64 * U:
+                            self._viol('session:chosen-one', f'after {_cfg_str_any(cfg)} uc.{label} = {v!r}, not 1', [n])
+        def clause_parse():
+            # (c) every expression has the value the ordinary grammar gives it over the table now in force
+            for it, s, cached in self._spellings(rng, n_fresh, ok):
+                ctx.stats.case('oracle:session-parse', (len(self.trail), s))
+                v, e = ok[it[0]]
+                impl = _real_parse(uc, s)
+                if impl == 'err' or abs(Fraction(impl) - v) > _tol(v, e):
+                    self._viol('session:parse', f'uc.parse({s!r}) = {impl!r} after {_cfg_str_any(cfg)}; the expression is '
+                               f'{tree_str(it[1])} = {_f(v)!r} with the units now in force '
+                               f'({"spelled as in earlier calls" if cached else "spelled as never before"})', [s])
+        def clause_indep():
+            # (d) working-unit independence: x [s1] in [s2] is the SI ratio — one side spelled as before, the other fresh
+            pairs = rng.sample(self.pool.pairs, min(n_pairs, len(self.pool.pairs)))
+            for a, b in pairs:
+                if a[0] not in ok or b[0] not in ok:
                     continue
-                want = [Fraction(x) * a[3] / b[3] for x in xs]
+                xs = [1.0, cm.dyadic(rng, -8, 8, 3), rng.uniform(-100, 100)]
+                for s1, s2 in ((a[0], render(None, b[1], 2, wsfix=_fresh_ws())), (render(None, a[1], 2, wsfix=_fresh_ws()), b[0]),
+                               (a[0], b[0])):
+                    ctx.stats.case('oracle:session-independence', (len(self.trail), s1, s2))
+                    if not all(_mag_ok(Fraction(x) * ok[a[0]][0]) for x in xs):
+                        continue
+                    want = [Fraction(x) * a[3] / b[3] for x in xs]
+                    try:
+                        gotv = np.asarray(_timed(uc.get_in_units, _timed(uc.set_in_units, np.array(xs), s1), s2)).tolist()
+                    except Exception as ex:  # noqa
+                        gotv = f'{type(ex).__name__}: {ex}'
+                    if isinstance(gotv, str) or any(g != g or abs(g) == float('inf') or
+                                                    not abs(Fraction(g) - w) <= Fraction(_tol(w, a[4] + b[4] + 2))
+                                                    for g, w in zip(gotv, want)):
+                        self._viol('session:independence', f'{xs} [{s1}] in [{s2}] after {_cfg_str_any(cfg)} is {gotv}; in SI '
+                                   f'units it is {[float(x) for x in want]} (both have dimension {_dstr(a[2])})', [s1, s2])
+        def clause_setlit():
+            # (e) set_literal
+            for term, value, it in self._literal_terms(rng, 6, ok):
+                ctx.stats.case('oracle:session-set_literal', (len(self.trail), term))
+                v, e = ok[it[0]]
+                val = read_literal(value)
+                want = [x * v for x in _flat(val)]
                 try:
-                    gotv = np.asarray(_timed(uc.get_in_units, _timed(uc.set_in_units, np.array(xs), s1), s2)).tolist()
+                    r = np.asarray(_timed(uc.set_literal, term))
+                    gotv = r.ravel().tolist() if r.shape == _shape_of(val) else f'an array of shape {r.shape}'
                 except Exception as ex:  # noqa
                     gotv = f'{type(ex).__name__}: {ex}'
-                if isinstance(gotv, str) or any(g != g or abs(g) == float('inf') or
-                                                not abs(Fraction(g) - w) <= Fraction(_tol(w, a[4] + b[4] + 2))
-                                                for g, w in zip(gotv, want)):
-                    self._viol('session:independence', f'{xs} [{s1}] in [{s2}] after {_cfg_str_any(cfg)} is {gotv}; in SI '
-                               f'units it is {[float(x) for x in want]} (both have dimension {a[2]})', [s1, s2])
-        # (e) set_literal
-        for term, value, it in self._literal_terms(rng, 6, ok):
-            ctx.stats.case('oracle:session-set_literal', (len(self.trail), term))
-            v, e = ok[it[0]]
-            val = read_literal(value)
-            want = [x * v for x in _flat(val)]
-            try:
-                r = np.asarray(_timed(uc.set_literal, term))
-                gotv = r.ravel().tolist() if r.shape == _shape_of(val) else f'an array of shape {r.shape}'
-            except Exception as ex:  # noqa
-                gotv = f'{type(ex).__name__}: {ex}'
-            if isinstance(gotv, str) or any(not abs(Fraction(g) - w) <= Fraction(_tol(w, e + 2)) for g, w in zip(gotv, want)):
-                self._viol('session:set_literal', f'uc.set_literal({term!r}) = {gotv!r} after {_cfg_str_any(cfg)}; '
-                           f'{value} [{it[0]}] is {[float(w) for w in want]!r}', [term])
+                if isinstance(gotv, str) or any(not abs(Fraction(g) - w) <= Fraction(_tol(w, e + 2)) for g, w in zip(gotv, want)):
+                    self._viol('session:set_literal', f'uc.set_literal({term!r}) = {gotv!r} after {_cfg_str_any(cfg)}; '
+                               f'{value} [{it[0]}] is {[float(w) for w in want]!r}', [term])
+        # the order in which the module is read is part of the history: a different one at every step
+        clauses = [clause_table, clause_chosen, clause_parse, clause_indep, clause_setlit]
+        rng.shuffle(clauses)
+        for c in clauses:
+            c()
 
     # -- the session model (driver ops sreset / scales / unit / parseu / conv / setlit) ------------------------------
     def _model(self, cfg, rng, want_sc, got_sc, real, vals, n_fresh, n_pairs, np):
@@ -2365,7 +2421,7 @@ def _o_indep(ctx, np, uc, s1, s2, xs, cfgs, si_vals, dims):
         for g, w in zip(got, want):
             if g != g or abs(g) == float('inf') or not abs(Fraction(g) - w) <= Fraction(_tol(w, e1 + e2 + 2)):
                 ctx.violate('independence', f'{xs} [{s1}] in [{s2}] after {_cfg_str(cfg)} is {got}; in SI units it is '
-                            f'{[float(x) for x in want]} (both expressions have dimension {d1})', replay)
+                            f'{[float(x) for x in want]} (both expressions have dimension {_dstr(d1)})', replay)
                 return
 
 
@@ -2389,7 +2445,16 @@ def _o_style(ctx, uc, lmp, st, dims, cfgs):
     """every mechanical entry of style `st` has the dimension of its label: by reading the expression in the ordinary
     grammar with the measured dimensions, and numerically: its value scales like the label under other base units."""
     import numericalunits as nu
+    first = lmp.style.unit(st)
+    before = list(first.items())
+    for k in list(first):                     # a caller scribbling over the table it was handed
+        first[k] = 'kg*bogus'
     real = lmp.style.unit(st)
+    if real is first or list(real.items()) != before:
+        ctx.violate('style:aliasing', f'style.unit({st!r}) hands out a table that a caller can change for everybody: after '
+                    f'overwriting the entries of one result the next call returns {list(real.items())[:2]} …',
+                    {'op': 'style', 'style': st})
+        return
     for label, expr in real.items():
         if expr is None or label not in LABEL_DIM:
             continue
@@ -2405,7 +2470,7 @@ def _o_style(ctx, uc, lmp, st, dims, cfgs):
             ctx.violate('style:entry', f'style {st!r}: {label!r} = {expr!r} cannot be evaluated ({ex})', replay)
             continue
         if tuple(d) != LABEL_DIM[label]:
-            ctx.violate('style:dimension', f'style {st!r}: {label!r} = {expr!r} has dimension (m,kg,s,C,K) = {tuple(d)}, '
+            ctx.violate('style:dimension', f'style {st!r}: {label!r} = {expr!r} has dimension (m,kg,s,C,K) = {_dstr(d)}, '
                         f'a {label} is {LABEL_DIM[label]}', replay)
             continue
         ref = None
